@@ -11,7 +11,7 @@
    before more, exactly as R prescribes (C02_fragment_quantified_selected_match_partial).  Partial:
    variable-length repeats, the optimised search paths, and the resume position of the scan loops outside the abstract
    good_step interface. *)
-From RX Require Import Base.Prelude Model.Engine Model.Matcher Model.Api Proofs.ScanFacts Model.Op Proofs.EngineFacts Proofs.EngineCorollaries Spec.Syntax Spec.Sem Model.Compiler Proofs.LowerFacts Proofs.FragmentSpec Proofs.OrderFacts Proofs.QuantFacts Proofs.QuantLaws Proofs.FixedFacts Proofs.OrderFixed.
+From RX Require Import Base.Prelude Model.Engine Model.Matcher Model.Api Proofs.ScanFacts Model.Op Proofs.EngineFacts Proofs.EngineCorollaries Spec.Syntax Spec.Sem Model.Compiler Proofs.LowerFacts Proofs.FragmentSpec Proofs.OrderFacts Proofs.QuantFacts Proofs.QuantLaws Proofs.FixedFacts Proofs.OrderFixed Spec.Parse Model.Compiler Proofs.GroupGrammar Proofs.GroupSpec.
 
 Fixpoint ordered (spans : list (nat * nat)) (from : nat) : Prop :=
   match spans with
@@ -90,8 +90,31 @@ Theorem C02_fragment_quantified_selected_match_partial :
     end.
 Proof. exact fragmentq_selected_match. Qed.
 
+(* the selected match from the strings, on the grammar of Proofs/GroupGrammar.v (runs, quantified
+   characters greedy and reluctant, anchors, alternation, nested groups): what ReMatcher::matches
+   reports from offset 0 is the specification's selected match - leftmost start, first result in
+   priority order (earlier alternative first, greedy longest first, reluctant shortest first).  Both
+   parsers' results are shown to enumerate, as lists, the ordered denotation DaO of the grammar tree. *)
+Theorem C02_group_grammar_selected_match :
+  forall xpath a fls input,
+    ok_a xpath a = true -> existsb (N.eqb 59) fls = false -> (N.of_nat (length input) < umax)%N ->
+    match spec_flags xpath fls with
+    | Valid sf =>
+        s_q sf = false -> s_x sf = false ->
+        exists re r, regex_new true xpath (show_a a) fls = Ok re /\ spec_parse xpath (show_a a) = Valid r
+          /\ match matches (r_prog re) input 0 st0 with
+             | MTrue s' => exists k q e, first_match sf input r (length input + 2) 0 = Some (k, q, e)
+                                         /\ get_pend s' 0 = Some q
+             | MFalse _ => first_match sf input r (length input + 2) 0 = None
+             | MOut | MPanic _ => False
+             end
+    | _ => True
+    end.
+Proof. exact grammar_selected_match. Qed.
+
 Print Assumptions C02_spans_ordered_partial.
 Print Assumptions C02_fragment_leftmost_first_partial.
 Print Assumptions C02_fragment_selected_match_partial.
 Print Assumptions C02_fragment_order_partial.
 Print Assumptions C02_fragment_quantified_selected_match_partial.
+Print Assumptions C02_group_grammar_selected_match.
